@@ -219,3 +219,88 @@ def cost_grid(values, hgts, labelled=False, region=True):
                      "FULL_LOSS": floss, "SEGMENTAL_LOSS": sloss}
                 if not region or in_region(c, labelled):
                     yield c
+
+
+# ---------------------------------------------------------------------------
+# G-MAP / G-LAB: valid reconciliations that are not solver outputs
+# ---------------------------------------------------------------------------
+@st.composite
+def ordered_labeling(draw, inst, order):
+    """A valid ordered labelling: root = every family present, in `order`;
+    each internal node a subsequence of its parent that keeps everything
+    carried below it (drawn top-down)."""
+    from .oracles import below_content
+
+    below = below_content(inst)
+    present = below[inst.oroot]
+    lab = {l: list(inst.lsyn[l]) for l in inst.oleaves}
+    if not inst.ochildren[inst.oroot]:
+        return lab
+    lab[inst.oroot] = [f for f in order if f in present]
+    for n in inst.ointernal_pre:
+        if n == inst.oroot:
+            continue
+        parent = lab[inst.oparent[n]]
+        opt = [f for f in parent if f not in below[n]]
+        mask = draw(st.integers(0, 2 ** len(opt) - 1)) if opt else 0
+        keep = {f for i, f in enumerate(opt) if mask >> i & 1}
+        lab[n] = [f for f in parent if f in below[n] or f in keep]
+    return lab
+
+
+@st.composite
+def unordered_labeling(draw, inst):
+    """A valid unordered labelling: required content <= set <= parent's set
+    plus own gains (drawn top-down)."""
+    from .plain import gain_nodes, required_content
+
+    gain = gain_nodes(inst)
+    req = required_content(inst, gain)
+    lab = {l: sorted(inst.lsyn[l]) for l in inst.oleaves}
+    for n in inst.ointernal_pre:
+        gains_here = {f for f, g in gain.items() if g == n}
+        allowed = set(gains_here) if n == inst.oroot else set(lab[inst.oparent[n]]) | gains_here
+        opt = sorted(allowed - req[n])
+        mask = draw(st.integers(0, 2 ** len(opt) - 1)) if opt else 0
+        lab[n] = sorted(req[n] | {f for i, f in enumerate(opt) if mask >> i & 1})
+    return lab
+
+
+@st.composite
+def labelled_reconciliation_case(draw, max_obj=5, max_sp=5, max_fam=4, costs="free", maxcost=5, min_obj=1):
+    """Input + one valid ordered labelling + one valid unordered labelling."""
+    from .plain import Instance
+
+    case = draw(rec_case(max_obj=max_obj, max_sp=max_sp, min_obj=min_obj, costs=costs, labelled=True, max_fam=max_fam,
+                         allow_inconsistent=False, maxcost=maxcost))
+    inst = Instance(case)
+    fams = sorted({f for s in case["leaf_syntenies"].values() for f in s}, key=lambda f: int(f[1:]))
+    # the hidden order is not stored in the case: recover an order compatible with all leaves
+    order = _compatible_order(case["leaf_syntenies"], fams)
+    case["_lab_o"] = draw(ordered_labeling(inst, order))
+    case["_lab_u"] = draw(unordered_labeling(inst))
+    return case
+
+
+def _compatible_order(leaf_syn, fams):
+    """Some linear order of the families having every leaf list as a
+    subsequence (exists by construction: leaves were cut from one order)."""
+    succ = {f: set() for f in fams}
+    indeg = {f: 0 for f in fams}
+    for s in leaf_syn.values():
+        for a, b in zip(s, s[1:]):
+            if b not in succ[a]:
+                succ[a].add(b)
+                indeg[b] += 1
+    out = []
+    ready = sorted(f for f in fams if indeg[f] == 0)
+    while ready:
+        f = ready.pop(0)
+        out.append(f)
+        for g in sorted(succ[f]):
+            indeg[g] -= 1
+            if indeg[g] == 0:
+                ready.append(g)
+                ready.sort()
+    assert len(out) == len(fams), "leaf syntenies are not consistent"
+    return out
